@@ -502,6 +502,8 @@ impl Regex {
     ) -> exec::Matches<super::classicalbacktrack::BacktrackExecutor<'r, indexing::Utf16Input<'t>>>
     {
         let input = Utf16Input::new(text, self.cr.flags.unicode);
+        // A start inside a surrogate pair denotes the pair, as for lastIndex in ES (RegExpBuiltinExec).
+        let start = input.floor_char_boundary(start);
         exec::Matches::new(
             super::classicalbacktrack::BacktrackExecutor::new(
                 input,
